@@ -1238,7 +1238,9 @@ impl World {
                 let Some(tr) = tr else { break };
                 progress = true;
                 let did = self.addr_id(tr.destination);
-                self.trace.push(vec![1, self.now as i128, epi as i128, oidx, did, tr.size as i128, tr.segment_size.map_or(0, |s| s as i128), ecn_code(tr.ecn), 0]);
+                let first_len = tr.segment_size.unwrap_or(tr.size).min(tr.size);
+                let hf = header_flags(&buf[..first_len]);
+                self.trace.push(vec![1, self.now as i128, epi as i128, oidx, did, tr.size as i128, tr.segment_size.map_or(0, |s| s as i128), ecn_code(tr.ecn), 0, hf]);
                 if !self.eps[epi].silent {
                     self.put_on_wire(epi, &tr, &buf, oidx);
                 }
